@@ -140,6 +140,17 @@ impl<'a> CoverageChecker<'a> {
                 self.validate_match(computation, *scrut, arms)
             }
             | Computation::CoMatch(CoMatch { arms }) => self.validate_comatch(computation, arms),
+            // A binder is a one-row match: a refutable pattern would fail at run time.
+            | Computation::VAbs(Abs(binder, _))
+                if self.statics.copattern_pack_pi_binders.get(&computation).is_none() =>
+            {
+                self.validate_pattern_matrix(computation, std::iter::once(*binder), None, false)
+            }
+            | Computation::Fix(Fix(binder, _))
+            | Computation::Do(Bind { binder, .. })
+            | Computation::Let(Let { binder, .. }) => {
+                self.validate_pattern_matrix(computation, std::iter::once(*binder), None, false)
+            }
             | _ => Vec::new(),
         };
         let binder_errors = self
